@@ -42,6 +42,11 @@ PARSER_PARAMS = {  # function q -> {param index: bits}
 }
 
 
+def _fld_ok(pr):
+    """named field of a crate-local ADT (std internals such as Box.0.pointer would merge every Box in the program)"""
+    return isinstance(pr, dict) and pr.get("n") is not None and pr.get("o") and not pr["o"].startswith(("std::", "core::", "alloc::", "closure:"))
+
+
 class Taint:
     def __init__(self, facts, entry_param_taint=None):
         self.facts = facts
@@ -74,7 +79,7 @@ class Taint:
         # field reads through self: field-based global taint
         projs = p["p"]
         for pr in projs:
-            if isinstance(pr, dict) and "n" in pr and pr.get("o") and pr.get("n") is not None:
+            if _fld_ok(pr):
                 bits |= self.F[(pr["o"], pr["n"])]
         if b.kind == "closure" and p["l"] == 1:
             # upvar read: (*_1).i  or _1.i
@@ -119,7 +124,7 @@ class Taint:
             rv = payload
             if rv["k"] in ("ref", "rawptr"):
                 p = rv["p"]
-                fld = [pr for pr in p["p"] if isinstance(pr, dict) and pr.get("n") is not None and pr.get("o")]
+                fld = [pr for pr in p["p"] if _fld_ok(pr)]
                 if fld:
                     via_self_field = (fld[-1]["o"], fld[-1]["n"])
                 cur = p["l"]
@@ -129,7 +134,7 @@ class Taint:
                 p = rv["a"].get("c") or rv["a"].get("m")
                 if p is None:
                     break
-                fld = [pr for pr in p["p"] if isinstance(pr, dict) and pr.get("n") is not None and pr.get("o")]
+                fld = [pr for pr in p["p"] if _fld_ok(pr)]
                 if fld:
                     via_self_field = (fld[-1]["o"], fld[-1]["n"])
                     cur = p["l"]
@@ -139,6 +144,12 @@ class Taint:
                 break
         return cur, via_self_field
 
+    def _trace(self, what, b, extra=""):
+        import os
+        tr = os.environ.get("RR_TAINT_TRACE")
+        if tr and tr in what:
+            print("TAINT-TRACE %s in %s %s" % (what, b.q, extra))
+
     def _add(self, b, l, bits):
         if not bits:
             return False
@@ -146,6 +157,7 @@ class Taint:
         if bits <= cur:
             return False
         cur |= bits
+        self._trace("local:%s:_%d" % (b.q, l), b, "bits %s" % sorted(bits))
         return True
 
     def _add_through(self, b, l, bits):
@@ -156,6 +168,7 @@ class Taint:
             ch |= self._add(b, root, bits)
         if fld and not (bits <= self.F[fld]):
             self.F[fld] |= bits
+            self._trace("%s.%s" % fld, b, "via reference local _%d" % l)
             ch = True
         return ch
 
@@ -168,7 +181,7 @@ class Taint:
                     self.T[b.path][i] |= bits
         changed = True
         rounds = 0
-        while changed and rounds < 40:
+        while changed and rounds < 400:
             changed = False
             rounds += 1
             for b in f.bodies:
@@ -238,18 +251,19 @@ class Taint:
                 if not bits:
                     continue
                 if d["p"] and d["p"][0] == "*":
-                    fld = [pr for pr in d["p"] if isinstance(pr, dict) and pr.get("n") is not None and pr.get("o")]
+                    fld = [pr for pr in d["p"] if _fld_ok(pr)]
                     if fld:
                         # a write to a named field through a reference taints that field (field-based), not the
                         # whole object behind the reference
                         if not (bits <= self.F[(fld[-1]["o"], fld[-1]["n"])]):
                             self.F[(fld[-1]["o"], fld[-1]["n"])] |= bits
+                            self._trace("%s.%s" % (fld[-1]["o"], fld[-1]["n"]), b, "assignment L%s" % s["sp"]["l"])
                             ch = True
                     else:
                         ch |= self._add_through(b, d["l"], bits)
                 else:
                     ch |= self._add(b, d["l"], bits)
-                    fld = [pr for pr in d["p"] if isinstance(pr, dict) and pr.get("n") is not None and pr.get("o")]
+                    fld = [pr for pr in d["p"] if _fld_ok(pr)]
                     if fld and d["l"] == 1 and not (bits <= self.F[(fld[-1]["o"], fld[-1]["n"])]):
                         self.F[(fld[-1]["o"], fld[-1]["n"])] |= bits
                         ch = True
